@@ -290,6 +290,10 @@ func c20Vals(fs []c20Field, i int) ([]c20Val, error) {
 			sized("value", "longer(with "+lenField+")", encode(data(n+2, 0x5A)), n+2),
 			sized("value", "shorter(with "+lenField+")", encode(data(n-2, 0x5A)), n-2),
 		}
+		if enc == "size-base64" {
+			// base64 text is case-sensitive: the swapped-case text is another value of the same length
+			out = append(out, sized("value", "letter-case-of-base64-text-differs", c20SwapAll(base), n))
+		}
 		alt := strings.ToUpper(base)
 		if enc == "size-base32" {
 			alt = strings.ToLower(base)
